@@ -10,7 +10,7 @@ FORGE_KINDS = "fFPKO"     # fail authentication, or are turned away before it (K
 
 
 def weff(wcfg):
-    w = int(wcfg)
+    w = 32 if wcfg == "-" else int(wcfg)
     if w == 0:
         w = 32
     return min(w, 64)
@@ -91,9 +91,9 @@ REQ_ALPHABET = ["g0", "g1", "g2", "g3", "g43", "e1", "f2", "P44", "F0", "K3", "2
 
 
 def rpd_random(r):
-    wcfg = r.choice(WINDOWS)
+    wcfg = r.choice(WINDOWS + ["-"])
     w = weff(wcfg)
-    b12 = r.choice([0, 1])
+    b12 = r.choice([0, 1, 1, 0, 2])       # 2: rfc8613_b_1_2 not in the configuration (default: on)
     con = 1 if r.random() < 0.2 else 0
     msgs = []
     sent = []
